@@ -153,7 +153,7 @@ func main() {
 			}})
 	}
 	scope("scope-q", "q", 16, dilscope.NMsgs, 7)
-	scope("scope-t", "t", 64, dilscope.NMsgs, 1)
+	scope("scope-t", "t", 256, dilscope.NMsgs, 1)
 	corpus := loadCorpus()
 	ck.Domains = append(ck.Domains, &drv.Domain{Name: "boundary-corpus", Size: int64(len(corpus)) + 1, Chunk: 4, Desc: "inputs on which a rejection test is met with slack -1/0 (from the C07 corpus): multi-iteration paths through every exit",
 		Run: func(c *drv.Ctx, lo, hi int64) {
@@ -174,67 +174,12 @@ func main() {
 	// histories on ONE key object: every sequence of <= 3 operations over {Sign, Seal} x 6 message shapes
 	hmsgs := [][]byte{{}, []byte("short"), bytes.Repeat([]byte{7}, 32), bytes.Repeat([]byte("abc"), 100), bytes.Repeat([]byte{0xEE}, 4700), []byte("short2")}
 	nop := int64(2 * len(hmsgs))
+	ck.Domains = append(ck.Domains, &drv.Domain{Name: "histories-4", Tier: "t", Size: nop * nop * nop * nop, Chunk: 64,
+		Desc: "every sequence of exactly 4 operations over {Sign(m), Seal(m)} x 6 message shapes on ONE key object (thorough)",
+		Run:  func(c *drv.Ctx, lo, hi int64) { histRun(c, lo, hi, hmsgs, nop, nop+nop*nop+nop*nop*nop) }})
 	ck.Domains = append(ck.Domains, &drv.Domain{Name: "histories", Size: nop + nop*nop + nop*nop*nop, Chunk: 64,
 		Desc: "every sequence of 1..3 operations over {Sign(m), Seal(m)} x 6 message shapes (empty, 5 B, 32 B, 300 B, 4700 B, 6 B) on ONE key object: every result equals the result of the same call on a fresh key object and verifies",
-		Run: func(c *drv.Ctx, lo, hi int64) {
-			seed := dilscope.Seed(2, c.Seed)
-			// fresh-object reference results
-			var want [][]byte
-			for o := int64(0); o < nop; o++ {
-				d, _ := dilithium.NewDilithiumFromSeed(seed)
-				m := hmsgs[o/2]
-				if o%2 == 0 {
-					sg, _ := d.Sign(m)
-					want = append(want, sg[:])
-				} else {
-					sm, _ := d.Seal(m)
-					want = append(want, sm)
-				}
-			}
-			for i := lo; i < hi; i++ {
-				c.At(i)
-				k := i
-				n := 1
-				for base := nop; k >= base; base *= nop {
-					k -= base
-					n++
-				}
-				d, _ := dilithium.NewDilithiumFromSeed(seed)
-				pk := d.GetPK()
-				var names []string
-				for t := 0; t < n; t++ {
-					o := k % nop
-					k /= nop
-					m := append([]byte(nil), hmsgs[o/2]...)
-					var got []byte
-					if o%2 == 0 {
-						sg, _ := d.Sign(m)
-						got = sg[:]
-						names = append(names, fmt.Sprintf("Sign(%dB)", len(m)))
-						if !dilithium.Verify(m, sg, &pk) {
-							c.Fail(i, "history:signature-does-not-verify", map[string]any{"sequence": names})
-						}
-					} else {
-						got, _ = d.Seal(m)
-						names = append(names, fmt.Sprintf("Seal(%dB)", len(m)))
-						if op := dilithium.Open(got, &pk); op == nil || !bytes.Equal(op, hmsgs[o/2]) {
-							c.Fail(i, "history:sealed-message-does-not-open", map[string]any{"sequence": names})
-						}
-					}
-					if !bytes.Equal(got, want[o]) {
-						c.Fail(i, "history:result-depends-on-earlier-calls", map[string]any{"sequence": names, "position": t})
-					}
-				}
-				c.Eval(int64(n))
-				if n > 1 {
-					c.Nontrivial(1)
-				}
-				c.Outcome(fmt.Sprintf("len=%d", n))
-				if i == 200 {
-					c.Sample(map[string]any{"sequence": names})
-				}
-			}
-		}})
+		Run:  func(c *drv.Ctx, lo, hi int64) { histRun(c, lo, hi, hmsgs, nop, 0) }})
 	ck.Finish = func(cov map[string]any, m map[string]*drv.DomStats) {
 		all := map[string]bool{}
 		paths := map[string]bool{}
@@ -261,4 +206,64 @@ func main() {
 		}
 	}
 	drv.Main(ck)
+}
+
+func histRun(c *drv.Ctx, lo, hi int64, hmsgs [][]byte, nop int64, offset int64) {
+	seed := dilscope.Seed(2, c.Seed)
+	// fresh-object reference results
+	var want [][]byte
+	for o := int64(0); o < nop; o++ {
+		d, _ := dilithium.NewDilithiumFromSeed(seed)
+		m := hmsgs[o/2]
+		if o%2 == 0 {
+			sg, _ := d.Sign(m)
+			want = append(want, sg[:])
+		} else {
+			sm, _ := d.Seal(m)
+			want = append(want, sm)
+		}
+	}
+	for i := lo; i < hi; i++ {
+		c.At(i)
+		k := i + offset
+		n := 1
+		for base := nop; k >= base; base *= nop {
+			k -= base
+			n++
+		}
+		d, _ := dilithium.NewDilithiumFromSeed(seed)
+		pk := d.GetPK()
+		var names []string
+		for t := 0; t < n; t++ {
+			o := k % nop
+			k /= nop
+			m := append([]byte(nil), hmsgs[o/2]...)
+			var got []byte
+			if o%2 == 0 {
+				sg, _ := d.Sign(m)
+				got = sg[:]
+				names = append(names, fmt.Sprintf("Sign(%dB)", len(m)))
+				if !dilithium.Verify(m, sg, &pk) {
+					c.Fail(i, "history:signature-does-not-verify", map[string]any{"sequence": names})
+				}
+			} else {
+				got, _ = d.Seal(m)
+				names = append(names, fmt.Sprintf("Seal(%dB)", len(m)))
+				if op := dilithium.Open(got, &pk); op == nil || !bytes.Equal(op, hmsgs[o/2]) {
+					c.Fail(i, "history:sealed-message-does-not-open", map[string]any{"sequence": names})
+				}
+			}
+			if !bytes.Equal(got, want[o]) {
+				c.Fail(i, "history:result-depends-on-earlier-calls", map[string]any{"sequence": names, "position": t})
+			}
+		}
+		c.Eval(int64(n))
+		if n > 1 {
+			c.Nontrivial(1)
+		}
+		c.Outcome(fmt.Sprintf("len=%d", n))
+		if i == 200 {
+			c.Sample(map[string]any{"sequence": names})
+		}
+	}
 }
